@@ -110,6 +110,28 @@ pub fn c16(tier: &str, seed: u64) -> Vec<Case> {
         if eq != set.contains(&other) { c = c.fail("hashset-lookup", "set membership disagrees with equality".into()); }
         v.push(c);
     }
+    // values only construction from parts can produce: a supported type spelled as `Unknown(code)`, and
+    // opaque data of length zero; equality, hashing, set membership and the owned copy must agree
+    for code in [1u16, 2, 5, 12, 16, 28, 33, 41, 47, 64, 257, 9999] {
+        let spelled = [TYPE::from(code), TYPE::Unknown(code)];
+        let mut vals: Vec<RData<'static>> = spelled.iter().map(|t| RData::Empty(*t)).collect();
+        vals.push(RData::NULL(code, rdata::NULL::new(&[]).unwrap().into_owned()));
+        vals.push(RData::NULL(code, rdata::NULL::new(b"x").unwrap().into_owned()));
+        let recs: Vec<ResourceRecord<'static>> = vals.into_iter().map(|rd| ResourceRecord::new(Name::new_unchecked("t"), CLASS::IN, 1, rd)).collect();
+        for a in &recs {
+            let owned = a.clone().into_owned();
+            let mut c = Case::oracle_only().tag("aliased-values");
+            if !(owned == *a) || h(&owned) != h(a) || format!("{:?}", owned.rdata) != format!("{:?}", a.rdata) { c = c.fail("into-owned-eq", format!("type code {}: the owned copy of a value built from parts is another value", code)); }
+            for b in &recs {
+                let (eq, heq) = (a == b, h(a) == h(b));
+                let mut set = HashSet::new();
+                set.insert(a.clone());
+                if eq && !heq { c = c.fail("eq-hash", format!("type code {}: {:?} and {:?} compare equal but hash differently", code, a.rdata, b.rdata)); }
+                if eq != set.contains(b) { c = c.fail("hashset-lookup", format!("type code {}: set membership disagrees with equality", code)); }
+            }
+            v.push(c);
+        }
+    }
     for (x, y) in [("Example.com", "example.com"), ("a.B.c", "a.b.c"), ("LOCAL", "local"), ("x.y", "x.y")] {
         let (na, nb) = (Name::new_unchecked(x).into_owned(), Name::new_unchecked(y).into_owned());
         let (eq, heq) = (na == nb, h(&na) == h(&nb));
@@ -245,6 +267,14 @@ pub fn c12(tier: &str, seed: u64) -> Vec<Case> {
         for l in labels { for m in labels { names.push(vec![l.to_vec(), m.to_vec()]); } }
         names.push(vec![b"a".to_vec(), b"b".to_vec(), b"c".to_vec()]);
         names.push(vec![b"office".to_vec(), b"_tcp".to_vec(), b"local".to_vec()]);
+        // names ending in labels that code is apt to special-case, with few and many labels
+        for tail in [&b"arpa"[..], b"ARPA", b"local", b"LOCAL", b"in-addr", b"ip6", b"_services", b"_dns-sd", b"_udp", b"localhost", b"invalid", b"test"] {
+            names.push(vec![tail.to_vec()]);
+            names.push(vec![b"home".to_vec(), tail.to_vec()]);
+            names.push(vec![b"10".to_vec(), b"in-addr".to_vec(), tail.to_vec()]);
+            names.push(vec![b"254".to_vec(), b"169".to_vec(), b"in-addr".to_vec(), tail.to_vec()]);
+            names.push(vec![b"1".to_vec(), b"0".to_vec(), b"254".to_vec(), b"169".to_vec(), b"in-addr".to_vec(), tail.to_vec()]);
+        }
         for n in names.iter() {
             for m in names.iter() {
                 let mut p = Packet::new_reply(5);
